@@ -47,6 +47,9 @@ CHECKS = {
  "C15": dict(level="exploration", tech="convergence oracle over exhaustively enumerated small-scope two-replica histories (edits x undo/redo x every sync placement, incl. macro events 'everybody syncs and collects' and 'one replica collects first') and random larger ones, on real Documents exchanging changes through an in-process change log that mirrors the server (wire codec, push order, minimum version vector => every pull garbage-collects); plus a fresh replica fed by the log alone",
    text="2 replicas, base document per family (text/array/tree/object+counter+nested array), ALL event sequences up to length 5 (thorough 6) over {edit_k by A or B from a reduced state-dependent C14 alphabet that always contains a deletion, undo/redo by A or B, sync A, sync B, round, lead A, lead B} with <=3 edits per replica and <=2 (3) undo/redo calls, in four configurations (collection on/off x histories cleared or not), every prefix evaluated; random 2..3-replica histories over the full generator alphabet. Oracle: no Update/Undo/Redo/sync errors or panics; after closing rounds and a final collection all replicas marshal byte-identically; a fresh replica built from the log shows the same canonical content.",
    note="in-process log, not the RPC server; failures whose precondition is one of four recorded findings (restore racing a concurrent edit, same identity restored twice, undo referring to an acknowledged tombstone, array insertion next to a tombstone under collection) are identified from the log / the author's state and reported as KNOWN-FINDING, everything else is a violation."),
+ "C18": dict(level="exploration", tech="round-trip monitor on documents reached through generated histories and on generated YSON literals: export -> text -> parse -> text (stable), SetYSON into a new document -> export (equal), canonical content of the rebuilt document through a view that bypasses the exporter, and the rebuilt document's changes through the wire codec into a third document",
+   text="Subject+peer histories over the full generator alphabet with scar steps (concurrent edits, GC, snapshot round trip), styles and style removal, non-BMP characters, nested containers, counters, plus values real documents hold (punctuation, the exporter's own keywords, {\"type\":\"paragraph\"} objects, control characters, 64-bit extremes); at sampled points the compaction/revision round trip is performed. Literal family: random YSON values of every type and nesting are marshalled, parsed, re-marshalled, set into a document and exported again.",
+   note="in-process; packs.Compact's rebuild-compare on the live server is exercised on every compaction of C10; dedup counters that already counted are compared up to the rebuilt document only (F-DEDUP-HLL-OPS, pinned witness)."),
  "C11": dict(level="exploration", tech="reference state machine vs the real RPC server over exhaustively enumerated call sequences (small scope) + sampled longer ones; side-effect observation of logs, client records and version-vector rows around every call",
    text="All sequences up to length 4 (quick) / 5 (thorough) over {Activate, Deactivate, Attach, failing Attach, PushPull, Detach, Remove} x 2 clients x 2 documents modulo renaming, all continuations of the both-attached prefix, and sampled sequences of length 6-8; accept/reject must equal the model, rejected calls leave no trace, accepted calls store exactly their changes (none after removal), rows/status follow the lifecycle.",
    note="memdb; version-vector rows read through verif-tagged accessor; Activate always creates a new client identity (as the server does); failing Attach modelled only from the never-attached state."),
